@@ -68,16 +68,23 @@ def c03_stage(prop, tier, seed, replay):
         cfgs = lab_configs(n, rr)
         # every fourth lab (offset 2, so the four base configurations rotate through it) uses the crate output mode
         cfgs = [crate_mode(c, i, rr) if i % 4 == 2 + (i // 4) % 2 else c for i, c in enumerate(cfgs)]
+        k = 1      # quick has four crate-mode labs: services only, errors only, types only, services + errors without types
+        for c in cfgs:
+            if c.get("crate"):
+                c["needs"] = k
+                k += 1
         cases = [(rr.getrandbits(48), cfgs[i]) for i in range(n)]
     rep = empty_report(prop)
     specs, meta = [], {}
     for i, (cs, cfg) in enumerate(cases):
         r = random.Random(cs)
         n_svc, n_err = r.choice([2, 3, 4]), r.choice([2, 4])
+        n_types = r.choice([25, 40, 55])
         if cfg.get("crate"):
-            # the emitted manifest lists only the runtime crates the definition needs: vary what it needs
-            n_svc, n_err = r.choice([(n_svc, n_err), (n_svc, 0), (0, n_err), (0, 0)])
-        g = LabGen(cs, Profile(n_types=r.choice([25, 40, 55]), services=n_svc, errors=n_err, hostile_names=True,
+            # the emitted manifest lists only the runtime crates the definition needs: the crate-mode labs of a run
+            # rotate through everything / services only / errors only / types only / services + errors without types
+            n_svc, n_err, n_types = [(n_svc, n_err, n_types), (n_svc, 0, 0), (0, n_err, 0), (0, 0, n_types), (n_svc, n_err, 0)][cfg.get("needs", 0) % 5]
+        g = LabGen(cs, Profile(n_types=n_types, services=n_svc, errors=n_err, hostile_names=True,
                                packages=["com.verif.lab", "com.verif.lab.sub", "com.verif.lab.sub.deep", "com.verif.other", "org.example", "com.verif.lab.type", "com.verif.async.mod",
                                          "com.verif.left.api", "com.verif.right.api", "com.verif.left.api.v1", "com.verif.right.api.v1"]))
         ir = g.ir()
@@ -1147,6 +1154,7 @@ def raw_stage(prop, tier, seed, replay):
                                 cands.append((a, "repeated"))
                             if typed:
                                 cands.append((a, "unparsable"))
+                                cands.append((a, "empty-value"))
                         if kind == "header":
                             cands += [(a, "not-text"), (a, "repeated")]
                             if not optional:
@@ -1185,6 +1193,9 @@ def raw_stage(prop, tier, seed, replay):
                                 texts = (texts or ["1"])[:1] * 2
                             elif how == "unparsable":
                                 texts = ["!bad"]
+                            elif how == "empty-value":
+                                # `key=`: the empty text is no value of a typed parameter; a list / set keeps its other elements
+                                texts = (texts + [""]) if u[0] in ("list", "set") else [""]
                             query += [(key, t) for t in texts]
                         elif kind == "header":
                             key = a["paramType"]["header"]["paramId"].lower()
